@@ -94,6 +94,10 @@ func init() {
 	// exponents that do not fit an int (still RFC 8259 numbers, carried as literals)
 	numPool = append(numPool, "1e99999999999999999999", "0e7777777777777777777777", "-1.5E-99999999999999999999", "2e+000000000000000000001", "1E9223372036854775808")
 	keyPool = append(keyPool, odd...)
+	// names whose length sits at the edges of small fixed-size buffers (with and without the quotes and the colon)
+	for _, n := range []int{30, 61, 62, 63, 64, 125, 126, 127, 128, 254, 255, 256} {
+		keyPool = append(keyPool, strings.Repeat("com.example/feature-flags.rollout-percentage.v2x", 8)[:n])
+	}
 	keyPool = append(keyPool, "line\nfeed", "cr\rlf", "\b\f", "\x01f", "\x0e", "a\x00b", "\x0b\x07")
 	strPool = append(strPool, "line\nfeed", "cr\rlf\n", "\b\f\v")
 	// decimal digits that are not ASCII (Arabic-Indic, fullwidth, Devanagari): member names, never indices
